@@ -250,6 +250,29 @@ def oracle(ctx):
             for hist in ([vals[0], vals[1]], [vals[1], '', vals[0]], [vals[0], vals[1], vals[-1]] if kind != 'bool' else [vals[0], '', vals[1]]):
                 text = '[' + G.SEC[ty] + ']\n' + ''.join(b + '\n' for b in G.BASE[ty] if not b.startswith(key + '=')) + ''.join(f'{key}={v}\n' for v in hist)
                 tcases.append((ty, key, kind, flag, hist, text))
+    # … and the history of one key is its own: with a key K reset (value, empty), every *other* table key of the unit that is set
+    # keeps its option
+    besides, bops = [], []
+    for ty in G.TYPES:
+        specs = [(k, kd, f) for k, kd, f in c02.key_specs(ty) if kd in ('str', 'all')]
+        for i, (key, kind, flag) in enumerate(specs):
+            others = [specs[j] for j in range(len(specs)) if j != i]
+            if not others:
+                continue
+            pick = rnd.sample(others, min(len(others), 3))
+            text = ('[' + G.SEC[ty] + ']\n' + ''.join(b + '\n' for b in G.BASE[ty] if b.split('=')[0] not in [key] + [p[0] for p in pick])
+                    + ''.join(f'{k2}=beside-{n}\n' for n, (k2, _, _) in enumerate(pick)) + f'{key}=gone\n{key}=\n')
+            besides.append((ty, key, pick, text))
+            bops.append(f'convert\t0\t0\t{hx("/q/b." + ty)}\t{hx(text)}')
+    bav = c02.argv(ctx, ctx.impl(bops))
+    for (ty, key, pick, text), op, av in zip(besides, bops, bav):
+        if av is None:
+            continue
+        res.oracle_evals += 1
+        missing = [(k2, f2) for n, (k2, _, f2) in enumerate(pick) if not any(av[i] == f2 and av[i + 1] == f'beside-{n}' for i in range(len(av) - 1))]
+        if missing or 'gone' in av:
+            res.oracle_failures.append(dict(op=op, input=text, impl_output=str(av)[:500],
+                                            oracle_expectation=f'{key} was reset; the keys beside it keep their options {[(k2, f2) for k2, _, f2 in pick]} (missing: {missing})'))
     tops = [f'convert\t0\t0\t{hx("/q/t." + ty)}\t{hx(text)}' for ty, key, kind, flag, hist, text in tcases]
     targv = c02.argv(ctx, ctx.impl(tops))
     for (ty, key, kind, flag, hist, text), op, av in zip(tcases, tops, targv):
